@@ -21,13 +21,13 @@ CLAIMED = {
  "C13": dict(
    category="exploration", design_ref="DESIGN.md §4 C13",
    technique="deterministic simulation of copy/assign/swap/alias interleavings over an object pool with bystander monitoring",
-   text="Seeded histories with copies, assignments, swaps, self-assignment, self-swap and aliased operands; objects not involved in an operation must keep their exact dump text, const operands their value, and x.op(x) must equal copy.op(copy). Currently instantiated for C and NNC polyhedra.",
+   text="Seeded histories with copies, assignments, swaps, self-assignment, self-swap and aliased operands; objects not involved in an operation must keep their exact dump text, const operands their value, and x.op(x) must equal copy.op(copy); Linear_Expression arithmetic with aliased operands (e -= e) is covered by the rows harness of C16.",
    note="Instantiated for C/NNC polyhedra, rational BD shapes, octagons, boxes, grids, powersets and products; the syntactic classes (Linear_Expression, systems) are covered only through rows (C16)."),
  "C14": dict(
    category="fault_enumeration", design_ref="DESIGN.md §4 C14, §3.3-3.5 (M-fault), §5.1",
    technique="fault injection in forked branches of a deterministic simulation: k-th allocation (operator new and GMP) fails, abandonment at the k-th maybe_abandon() checkpoint, abandon flag at an allocation instant, weight threshold; LeakSanitizer reachability as leak oracle",
-   text="For operation instances reached by seeded histories, the operation is re-executed from its exact pre-state with one injected fault per branch; judged: exception type, global state (rounding mode, watcher hook), bystanders unchanged, every involved object can be destroyed / assigned / swapped and then behaves like a pristine object with that value, and no block allocated during the call is unreachable after everything is destroyed. Rejected (ill-formed) calls must throw std::invalid_argument / std::length_error and leave values unchanged. Thorough tier enumerates fault positions over the whole range of the operation instance.",
-   note="Interpretation of 'can still be used' is the basic guarantee (DESIGN.md §5.1). Instantiated for C/NNC polyhedra, rational BD shapes, octagons, boxes and grids. Coefficient overflow is not injected. Two leaks inside gmpxx (big-number layer) are listed as known findings."),
+   text="For operation instances reached by seeded histories, the operation is re-executed from its exact pre-state with one injected fault per branch; judged: exception type, global state (rounding mode, watcher hook), bystanders unchanged, every object that was hit satisfies OK() as it stands and can be copied and queried (its value is unspecified), can be destroyed / assigned / swapped and then behaves like a pristine object with that value, a logically const solver call leaves the problem's answers unchanged, and no block allocated during the call is unreachable after everything is destroyed. Rejected (ill-formed) calls (dimension mismatch, space-dimension overflow, strict inequalities for MIP, out-of-range variables) must throw std::invalid_argument / std::length_error and leave values unchanged. Thorough tier enumerates fault positions over the whole range of the operation instance.",
+   note="Interpretation of 'can still be used': DESIGN.md §5.1 (reading as built). Instantiated for C/NNC polyhedra, rational BD shapes, octagons, boxes, grids, powersets, products, MIP_Problem and PIP_Problem. Coefficient overflow is not injected (mpz build). Open findings: gmpxx leaks (F7a-c), invalid objects after memory exhaustion (F35, systemic), containers and PIP after abandonment (F36, F37), see known_findings.json."),
  "C15": dict(
    category="exploration", design_ref="DESIGN.md §4 C15",
    technique="deterministic simulation with crash/restart semantics: dump at arbitrary history points, load into arbitrary receivers, lock-step continuation of original and reloaded replica",
